@@ -53,6 +53,55 @@ func vfFaultFired() int { vfFault.mu.Lock(); defer vfFault.mu.Unlock(); return v
 
 var errInjected = errors.New("verif: injected statement fault")
 
+// row-iteration faults: the k-th Next() of the result set of a matching query fails (I/O error while stepping the statement)
+type rowFaultPlan struct {
+	mu      sync.Mutex
+	pattern string
+	row     int // fail the Next() that would deliver this row (1-based); 0 = disabled
+	fired   int
+}
+
+var vfRowFault = &rowFaultPlan{}
+
+func vfSetRowFault(pattern string, row int) {
+	vfRowFault.mu.Lock()
+	vfRowFault.pattern, vfRowFault.row, vfRowFault.fired = pattern, row, 0
+	vfRowFault.mu.Unlock()
+}
+func vfRowFaultFired() int { vfRowFault.mu.Lock(); defer vfRowFault.mu.Unlock(); return vfRowFault.fired }
+
+type faultRows struct {
+	driver.Rows
+	n int
+}
+
+func (r *faultRows) Next(dest []driver.Value) error {
+	r.n++
+	vfRowFault.mu.Lock()
+	hit := vfRowFault.row != 0 && r.n == vfRowFault.row
+	if hit {
+		vfRowFault.fired++
+	}
+	vfRowFault.mu.Unlock()
+	if hit {
+		return errInjected
+	}
+	return r.Rows.Next(dest)
+}
+
+func wrapRows(q string, rows driver.Rows, err error) (driver.Rows, error) {
+	if err != nil {
+		return rows, err
+	}
+	vfRowFault.mu.Lock()
+	match := vfRowFault.row != 0 && strings.Contains(q, vfRowFault.pattern)
+	vfRowFault.mu.Unlock()
+	if match {
+		return &faultRows{Rows: rows}, nil
+	}
+	return rows, nil
+}
+
 func (f *faultPlan) hit(q string) bool {
 	f.mu.Lock()
 	defer f.mu.Unlock()
@@ -101,7 +150,8 @@ func (c *faultConn) QueryContext(ctx context.Context, q string, args []driver.Na
 	if vfFault.hit(q) {
 		return nil, errInjected
 	}
-	return c.c.QueryContext(ctx, q, args)
+	rows, err := c.c.QueryContext(ctx, q, args)
+	return wrapRows(q, rows, err)
 }
 
 type faultStmt struct {
@@ -121,7 +171,8 @@ func (s *faultStmt) Query(args []driver.Value) (driver.Rows, error) {
 	if vfFault.hit(s.q) {
 		return nil, errInjected
 	}
-	return s.s.Query(args)
+	rows, err := s.s.Query(args)
+	return wrapRows(s.q, rows, err)
 }
 
 var vfRegister sync.Once
@@ -147,7 +198,7 @@ func vfNewNode(t testing.TB) (*Pegnetd, func()) {
 	}
 	p.DB = db
 	d := &Pegnetd{Pegnet: p, Config: conf, Sync: &pegnet.BlockSync{}}
-	return d, func() { vfSetFault("", 0); db.Close(); os.RemoveAll(dir) }
+	return d, func() { vfSetFault("", 0); vfSetRowFault("", 0); db.Close(); os.RemoveAll(dir) }
 }
 
 // vfSignedEntry builds a signed FAT-2 entry for the transaction chain.
